@@ -16,6 +16,8 @@ the loader rewrites:
   N14 d = {}; for t in it: d[K] = V  ->  d = {K: V for t in it}
   N15 while True: t = a.b; if C(t): break; REST  ->  while not C(a.b): t = a.b; REST   (leading read-only aliases)
   N16 for t in it: if C: return True;  return False  ->  return any(C for t in it)   (and the all() dual)
+  N17 while True: if X: S; break; REST  ->  while not X: REST else: S
+  N18 t = 0; for x in it: t += E  ->  t = sum(E for x in it)   (with  t += a / t -= b  arms folded into one conditional term)
   N13 x = list(E); x.sort(**kw)  ->  x = sorted(E, **kw)
   N6  while True: if X: break; rest    ->  while not X: rest         (loops without else whose first statement is the exit test)
 Line numbers of the surviving statements are preserved, so reports still point at the original source lines.
@@ -146,6 +148,13 @@ class _N(ast.NodeTransformer):
                     test = tests[0] if len(tests) == 1 else ast.BoolOp(op=ast.And(), values=tests)
                     body = node.body[:k] + tail[len(lead):]
                     return ast.copy_location(ast.While(test=ast.copy_location(test, lead[0].test), body=body, orelse=[]), node)
+            # N17: while True: if X: S...; break   REST      ->      while not X: REST   else: S...
+            # (the exit test is the first statement and does more than break: what it does is the loop's else clause)
+            first = node.body[0]
+            if isinstance(first, ast.If) and not first.orelse and len(first.body) >= 2 and isinstance(first.body[-1], ast.Break) \
+                    and len(node.body) > 1 \
+                    and not any(isinstance(x, (ast.Break, ast.Continue)) for s_ in first.body[:-1] for x in ast.walk(s_)):
+                return ast.copy_location(ast.While(test=_negate(first.test), body=node.body[1:], orelse=first.body[:-1]), node)
             guards = []
             for st in node.body:
                 if isinstance(st, ast.If) and not st.orelse and len(st.body) == 1 and isinstance(st.body[0], ast.Break):
@@ -170,6 +179,14 @@ class _N(ast.NodeTransformer):
             if isinstance(a, ast.Assign) and isinstance(b, ast.Assign) and len(a.targets) == 1 and len(b.targets) == 1 \
                     and isinstance(a.targets[0], (ast.Name, ast.Attribute)) and _same(a.targets[0], b.targets[0]):
                 return ast.copy_location(ast.Assign(targets=a.targets, value=ast.IfExp(test=node.test, body=a.value, orelse=b.value)), node)
+            if isinstance(a, ast.AugAssign) and isinstance(b, ast.AugAssign) and _same(a.target, b.target) \
+                    and isinstance(a.target, (ast.Name, ast.Attribute)) \
+                    and isinstance(a.op, (ast.Add, ast.Sub)) and isinstance(b.op, (ast.Add, ast.Sub)):
+                # t += x / t -= y  in the two arms:  t += (x if c else -y)
+                va = a.value if isinstance(a.op, ast.Add) else ast.UnaryOp(op=ast.USub(), operand=a.value)
+                vb = b.value if isinstance(b.op, ast.Add) else ast.UnaryOp(op=ast.USub(), operand=b.value)
+                return ast.copy_location(ast.AugAssign(target=a.target, op=ast.Add(),
+                                                       value=ast.IfExp(test=node.test, body=va, orelse=vb)), node)
             if isinstance(a, ast.Return) and isinstance(b, ast.Return) and a.value is not None and b.value is not None:
                 return ast.copy_location(ast.Return(value=ast.IfExp(test=node.test, body=a.value, orelse=b.value)), node)
             if isinstance(a, ast.Expr) and isinstance(b, ast.Expr) and isinstance(a.value, ast.Yield) and isinstance(b.value, ast.Yield) \
@@ -246,16 +263,38 @@ class _N(ast.NodeTransformer):
                     res2.append(ast.copy_location(ast.Assign(targets=[ast.Name(id=name, ctx=ast.Store())], value=comp), st))
                     i += 2
                     continue
+            # N18: t = 0; for x in it: t += E   ->   t = sum(E for x in it)
+            if isinstance(st, ast.Assign) and len(st.targets) == 1 and isinstance(st.targets[0], ast.Name) \
+                    and isinstance(st.value, ast.Constant) and st.value.value == 0 and not isinstance(st.value.value, bool) \
+                    and isinstance(nxt, ast.For) and not nxt.orelse and len(nxt.body) == 1 and isinstance(nxt.body[0], ast.AugAssign) \
+                    and isinstance(nxt.body[0].op, ast.Add) and isinstance(nxt.body[0].target, ast.Name) \
+                    and nxt.body[0].target.id == st.targets[0].id:
+                name = st.targets[0].id
+                ex_ = nxt.body[0].value
+                if name not in {n.id for x in (ex_, nxt.iter) for n in ast.walk(x) if isinstance(n, ast.Name)}:
+                    gen = ast.GeneratorExp(elt=ex_, generators=[ast.comprehension(target=nxt.target, iter=nxt.iter, ifs=[], is_async=0)])
+                    call = ast.Call(func=ast.Name(id="sum", ctx=ast.Load()), args=[gen], keywords=[])
+                    res2.append(ast.copy_location(ast.Assign(targets=[ast.Name(id=name, ctx=ast.Store())], value=ast.copy_location(call, st)), st))
+                    i += 2
+                    continue
             # N14: d = {}; for t in it: d[K] = V   ->   d = {K: V for t in it}
+            inner_ = None
+            conds_ = []
             if isinstance(st, ast.Assign) and len(st.targets) == 1 and isinstance(st.targets[0], ast.Name) \
                     and isinstance(st.value, ast.Dict) and not st.value.keys and isinstance(nxt, ast.For) and not nxt.orelse \
-                    and len(nxt.body) == 1 and isinstance(nxt.body[0], ast.Assign) and len(nxt.body[0].targets) == 1 \
-                    and isinstance(nxt.body[0].targets[0], ast.Subscript) and isinstance(nxt.body[0].targets[0].value, ast.Name) \
-                    and nxt.body[0].targets[0].value.id == st.targets[0].id:
+                    and len(nxt.body) == 1:
+                inner_ = nxt.body[0]
+                # one filtering `if` (without else) around the store becomes the comprehension's condition
+                if isinstance(inner_, ast.If) and not inner_.orelse and len(inner_.body) == 1:
+                    conds_ = [inner_.test]
+                    inner_ = inner_.body[0]
+            if inner_ is not None and isinstance(inner_, ast.Assign) and len(inner_.targets) == 1 \
+                    and isinstance(inner_.targets[0], ast.Subscript) and isinstance(inner_.targets[0].value, ast.Name) \
+                    and inner_.targets[0].value.id == st.targets[0].id:
                 name = st.targets[0].id
-                kx, vx = nxt.body[0].targets[0].slice, nxt.body[0].value
-                if name not in {n.id for x in (kx, vx, nxt.iter) for n in ast.walk(x) if isinstance(n, ast.Name)}:
-                    comp = ast.DictComp(key=kx, value=vx, generators=[ast.comprehension(target=nxt.target, iter=nxt.iter, ifs=[], is_async=0)])
+                kx, vx = inner_.targets[0].slice, inner_.value
+                if name not in {n.id for x in [kx, vx, nxt.iter] + conds_ for n in ast.walk(x) if isinstance(n, ast.Name)}:
+                    comp = ast.DictComp(key=kx, value=vx, generators=[ast.comprehension(target=nxt.target, iter=nxt.iter, ifs=conds_, is_async=0)])
                     res2.append(ast.copy_location(ast.Assign(targets=[ast.Name(id=name, ctx=ast.Store())], value=comp), st))
                     i += 2
                     continue
